@@ -586,6 +586,7 @@ def oracle_hist(case, obs):
     v = []
     subs, recs = [], []
     prev = []
+    prev_defd = []
     for i, (op, st) in enumerate(zip(case["ops"], obs["steps"])):
         k, res, now = op["op"], st["res"], st["opts"]
         cur = [[n, c] for n, _t, _u, c, _d in now]
@@ -637,6 +638,18 @@ def oracle_hist(case, obs):
             if len(ups) > 1 or len(got) != len(st["evs"]) or any(not e[4] or not _snap_eq(e[2], cur) for e in got) \
                     or (changed and got and not changed <= set(got[0][3])):
                 v.append({"key": "accepted-notify-wrong", "what": f"step {i}: {k} accepted, changed {sorted(changed)}, notifications {st['evs']}"})
+        # deferred options: applied and forgotten on success, kept on failure
+        if k == "process_deferred":
+            have_now = {n for n, _ in cur}
+            if not failed and any(n in have_now for n, _ in st["defd"]):
+                v.append({"key": "deferred-not-consumed", "what": f"step {i}: process_deferred succeeded but {st['defd']} still holds an existing option"})
+            if failed and st["defd"] != prev_defd:
+                v.append({"key": "deferred-lost", "what": f"step {i}: process_deferred raised {res['err']} and deferred went {prev_defd} -> {st['defd']}"})
+            if not failed:
+                for n, dv in prev_defd:
+                    if n in have_now and "v" in dv and not _veq(dict(cur)[n], dv["v"]):
+                        v.append({"key": "deferred-not-applied", "what": f"step {i}: deferred {NAMES[n]}={dv['v']} but the option is {dict(cur)[n]}"})
+        prev_defd = st["defd"]
         if k == "subscribe" and not failed:
             subs.append((op["l"], op["opts"]))
         if k == "connect" and not failed:
